@@ -18,11 +18,21 @@ for dp, dn, fns in os.walk(src):
         mod = "pyrtma" + ("." + rel if rel else "")
         t = ast.parse(open(p, encoding="utf-8").read())
         names = []
+
+        def data_names(body, prefix):
+            for st in body:
+                tg = st.targets if isinstance(st, ast.Assign) else ([st.target] if isinstance(st, ast.AnnAssign) else [])
+                for x in tg:
+                    if isinstance(x, ast.Name):
+                        names.append(f"{prefix}{x.id}")
+
+        data_names(t.body, "=")
         for st in t.body:
             if isinstance(st, (ast.FunctionDef, ast.AsyncFunctionDef)):
                 names.append(st.name)
             elif isinstance(st, ast.ClassDef):
                 names += [f"{st.name}.{m.name}" for m in st.body if isinstance(m, (ast.FunctionDef, ast.AsyncFunctionDef))]
+                data_names(st.body, f"={st.name}.")
         out[mod] = sorted(set(names))
 json.dump(out, open(os.path.join(V, "sa", "known_functions.json"), "w"), indent=0, sort_keys=True)
 print(sum(len(v) for v in out.values()), "functions in", len(out), "modules")
